@@ -20,6 +20,7 @@ Directives (one per line, payload = following non-directive lines):
   //@loopstart <n> / //@loopend <n>       payload placed at the start / end of the n-th loop's body
   //@before `anchor`[ #n]                 payload placed before the n-th occurrence of the anchor tokens
   //@after `anchor`[ #n]                  payload placed after it
+  //@afterstmt / //@beforestmt `anchor`   payload placed after / before the whole statement that contains the anchor
   //@atend                                payload placed before the closing brace of the fn body
   //@end                                  closes the current fn
   //@endimpl
@@ -409,7 +410,7 @@ class Extractor:
             elif cmd in ("loop", "loopstart", "loopend"):
                 txt, i = payload(i)
                 cur_fn["ins"].append((cmd, int(arg), 1, txt, where))
-            elif cmd in ("before", "after"):
+            elif cmd in ("before", "after", "beforestmt", "afterstmt"):
                 parts, rest = parse_backticks(arg)
                 m = re.search(r"#(-?\d+)", rest)
                 nth = int(m.group(1)) if m else 1
@@ -545,7 +546,7 @@ class Extractor:
                 else:
                     ce = brk[bi]
                     reg.add(toks[ce].start, toks[ce].start, "\n" + txt, "ins", f"loopend {arg}")
-            elif kind in ("before", "after"):
+            elif kind in ("before", "after", "beforestmt", "afterstmt"):
                 pt = tokenize(arg)
                 hits = find_seq(toks, it.first, it.last + 1, pt)
                 if len(hits) < abs(nth) or nth == 0:
@@ -553,9 +554,25 @@ class Extractor:
                 h = hits[nth - 1] if nth > 0 else hits[nth]
                 if kind == "before":
                     p = toks[h].start
-                else:
+                elif kind == "after":
                     p = toks[h + len(pt) - 1].end
-                reg.add(p, p, ("\n" if kind == "after" else "") + txt, "ins", f"{kind} `{arg}`")
+                elif kind == "afterstmt":
+                    k = h
+                    while k < it.last and toks[k].text != ";":
+                        if toks[k].text in ("(", "[", "{"):
+                            k = brk[k]
+                        k += 1
+                    if k >= it.last:
+                        raise ExtractError("lost-anchor", f"{where}: no statement end after `{arg}` in {f['path']}")
+                    p = toks[k].end
+                else:  # beforestmt
+                    k = h - 1
+                    while k > body_open and toks[k].text not in (";", "{", "}"):
+                        if toks[k].text in (")", "]"):
+                            k = brk[k]
+                        k -= 1
+                    p = toks[k].end
+                reg.add(p, p, ("\n" if kind in ("after", "afterstmt", "beforestmt") else "") + txt, "ins", f"{kind} `{arg}`")
         start_line = self.line
         rec = dict(path=f["path"], src_file=sf.rel, src_line=sf.line_of(toks[it.kw].start),
                    sha1=hashlib.sha1(sf.text[toks[it.first].start:toks[it.last].end].encode()).hexdigest()[:16],
